@@ -469,6 +469,10 @@ class Run:
                          f"no-failing-input-found")
             code = 1
         obligations, discharged, names = proof_status(self.pid)
+        try:
+            note = json.load(open(os.path.join(VERIF, "claims.json")))[self.pid]["note"]
+        except Exception:
+            note = ""
         coverage = {
             "obligations": obligations,
             "discharged": discharged,
@@ -479,7 +483,7 @@ class Run:
                 "hand-written Impl.* models tied to the Python code by the sampled "
                 "correspondence reported below",
                 "SHA-1/SHA-256 uninterpreted in all theorems",
-            ],
+            ] + ([note] if note else []),
             "theorems": names,
             "evaluations": self.evaluations,
             "distinct_nontrivial": len(self.nontrivial_keys),
